@@ -232,7 +232,7 @@ func here(cw *CodeWriter) gpos {
 
 // emit = layout text and comments: append to the buffer and advance the mapper over the same text; never a mapping.
 //@ func (cw *CodeWriter) emit(s)
-//@   props C08 C06 C15 C11 C01 C03 C14
+//@   props C08 C06 C15 C11 C01 C03 C14 C07
 //@   use cwFrame
 //@   ensures [mechanism@C08,C14,C06,C15,C03,C01] fullSeq(evCall("(*CodeWriter).write")) && callArg[string]("(*CodeWriter).write", 0, 1) == s && !callArg[bool]("(*CodeWriter).write", 0, 2)
 //@   ensures [pendings] eq(cw.pendings, old(cw.pendings)) && cw.IndentLevel == old(cw.IndentLevel)
@@ -244,7 +244,7 @@ func here(cw *CodeWriter) gpos {
 // write = a separating space if needed, then (for a token) the requested mapping, then the text; the mapper advances
 // over the same text. The mapping therefore lies exactly at the first character of the token.
 //@ func (cw *CodeWriter) write(s, isToken)
-//@   props C08 C06 C15 C11 C14 C01 C03
+//@   props C08 C06 C15 C11 C14 C01 C03 C07
 //@   use cwFrame
 //@   ensures [mechanism@C08,C14,C06,C15,C03,C01] fullSeq(evOpt(len(s) > 0 && isToken, evCall("(*CodeWriter).restoreSemi")), evOpt(len(s) > 0, evCall("(*CodeWriter).separateSigns")), evOpt(len(s) > 0 && isToken, evCall("(*CodeWriter).commitMapping")), evOpt(len(s) > 0, evCall("isDigits")), evOpt(len(s) > 0 && cw.Mapper != nil, evCall("(*SourceMapper).AdvanceString"))) && implies(len(s) > 0 && isToken, callArg[byte]("(*CodeWriter).restoreSemi", 0, 1) == s[0]) && implies(len(s) > 0 && cw.Mapper != nil, callArg[string]("(*SourceMapper).AdvanceString", 0, 1) == s)
 //@   ensures [pendings] eq(cw.pendings, old(cw.pendings)) && cw.IndentLevel == old(cw.IndentLevel)
@@ -252,7 +252,7 @@ func here(cw *CodeWriter) gpos {
 //@   ensures [recorded@C08] implies(cw.Mapper != nil && isToken && len(s) > 0 && old(cw.deferred.set), sourcemap.NumMappings(cw.Mapper) == old(sourcemap.NumMappings(cw.Mapper))+1 && pointsAt(cw, old(sourcemap.NumMappings(cw.Mapper)), old(cw.deferred)) && gposStr(startOf(cw, old(sourcemap.NumMappings(cw.Mapper))), s) == here(cw))
 //@   ensures [request-kept@C08] implies(!isToken, cw.deferred == old(cw.deferred))
 //@   ensures [request-used@C08] implies(isToken && cw.Mapper != nil, !cw.deferred.set)
-//@   ensures [written@C06] implies(len(s) > 0 && isToken, !cw.semiOmitted) && implies(len(s) == 0 || !isToken, cw.semiOmitted == old(cw.semiOmitted))
+//@   ensures [written@C06,C07,C01,C03] implies(len(s) > 0 && isToken, !cw.semiOmitted) && implies(len(s) == 0 || !isToken, cw.semiOmitted == old(cw.semiOmitted))
 //@   ensures [empty@C06] implies(len(s) == 0, eq(cw.Builder, old(cw.Builder)) && cw.lastByte == old(cw.lastByte))
 
 // asiHazard: first characters of a statement that a JavaScript parser takes for the continuation of the expression on
@@ -261,7 +261,7 @@ func asiHazard(c byte) bool { return c == '(' || c == '[' || c == '+' || c == '-
 
 // restoreSemi writes the semicolon that was left out exactly when the next token would continue the statement before it.
 //@ func (cw *CodeWriter) restoreSemi(next)
-//@   props C06 C03 C01 C08 C11
+//@   props C06 C03 C01 C08 C11 C07
 //@   requires [cw] cw != nil && cwInv(cw) && J(cw) && NoFusion(cw)
 //@   modifies cw.Builder, cw.lastByte, cw.prevByte, cw.lastInt, cw.Mapper.generatedColumn
 //@   ensures [cwinv] cwInv(cw)
@@ -279,7 +279,7 @@ func asiHazard(c byte) bool { return c == '(' || c == '[' || c == '+' || c == '-
 
 // separateSigns writes a space exactly when the next token would fuse with the last byte written.
 //@ func (cw *CodeWriter) separateSigns(next)
-//@   props C03 C01 C08 C06 C11
+//@   props C03 C01 C08 C06 C11 C07
 //@   requires [cw] cw != nil && cwInv(cw) && J(cw) && NoFusion(cw)
 //@   modifies cw.Builder, cw.lastByte, cw.prevByte, cw.lastInt, cw.Mapper.generatedColumn
 //@   ensures [cwinv] cwInv(cw)
@@ -326,7 +326,7 @@ func asiHazard(c byte) bool { return c == '(' || c == '[' || c == '+' || c == '-
 
 // WriteString = flush the deferred layout, then the text (both through emit, which advances the mapper).
 //@ func (cw *CodeWriter) WriteString(s)
-//@   props C06 C08 C15 C01 C11 C03 C14
+//@   props C06 C08 C15 C01 C11 C03 C14 C07
 //@   use cwFrame
 //@   ensures [mechanism@C06,C08,C15,C03,C01] fullSeq(evCall("(*CodeWriter).flushPending"), evCall("(*CodeWriter).write")) && callArg[string]("(*CodeWriter).write", 0, 1) == s && callArg[bool]("(*CodeWriter).write", 0, 2)
 //@   ensures [flushed] len(cw.pendings) == 0 && cw.IndentLevel == old(cw.IndentLevel)
@@ -337,12 +337,12 @@ func asiHazard(c byte) bool { return c == '(' || c == '[' || c == '+' || c == '-
 // WriteRune is used for single ASCII characters other than carriage return.
 // WriteRune = flush the deferred layout, then the character; the mapper advances by one column or one line.
 //@ func (cw *CodeWriter) WriteRune(r)
-//@   props C06 C08 C15 C01 C11 C03 C14
+//@   props C06 C08 C15 C01 C11 C03 C14 C07
 //@   use cwFrame
 //@   ensures [mechanism@C06,C08,C15,C03,C01] fullSeq(evCall("(*CodeWriter).flushPending"), evCall("(*CodeWriter).restoreSemi"), evCall("(*CodeWriter).separateSigns"), evCall("(*CodeWriter).commitMapping"), evOpt(cw.Mapper != nil && r == '\n', evCall("(*SourceMapper).AdvanceLine")), evOpt(cw.Mapper != nil && r != '\n', evCall("(*SourceMapper).AdvanceColumn")))
 //@   ensures [column@C08] implies(cw.Mapper != nil && r != '\n', callArg[int]("(*SourceMapper).AdvanceColumn", 0, 1) == 1)
 //@   ensures [asi@C06] callArg[byte]("(*CodeWriter).restoreSemi", 0, 1) == byte(r)
-//@   ensures [written@C06] !cw.semiOmitted
+//@   ensures [written@C06,C07,C01,C03] !cw.semiOmitted
 //@   requires [ascii] 0 <= r && r < 128 && r != '\r'
 //@   ensures [flushed] len(cw.pendings) == 0 && cw.IndentLevel == old(cw.IndentLevel)
 //@   ensures [no-mapping@C08] implies(cw.Mapper != nil && !old(cw.deferred.set), sourcemap.NumMappings(cw.Mapper) == old(sourcemap.NumMappings(cw.Mapper)))
